@@ -7,6 +7,7 @@ import (
 	"strings"
 
 	"github.com/krotik/ecal/engine"
+	"github.com/krotik/ecal/interpreter"
 	"simrt"
 	"simrt/simsync"
 	"simrt/simtime"
@@ -44,6 +45,7 @@ type c01Event struct {
 }
 
 type c01Plan struct {
+	ViaECAL bool              `json:"via_ecal,omitempty"` // rules are declared as ECAL sinks (attribute -> rule conversion in the interpreter)
 	Workers int               `json:"workers"`
 	Rules   []c01Rule         `json:"rules"`
 	Scopes  []map[string]bool `json:"scopes"`
@@ -155,6 +157,16 @@ func c01Gen(r *simrt.RNG, tier string) interface{} {
 			j := r.Intn(len(p.Rules))
 			if j != i {
 				p.Rules[i].Suppress = append(p.Rules[i].Suppress, p.Rules[j].Name)
+			}
+		}
+	}
+	if !many && r.Bool(0.35) {
+		p.ViaECAL = true
+		for i := range p.Rules {
+			for k, v := range p.Rules[i].State {
+				if v.T == "regex" { // no regular expression objects at ECAL level
+					p.Rules[i].State[k] = c01Val{T: "str", S: "ab"}
+				}
 			}
 		}
 	}
@@ -274,7 +286,60 @@ func c01Shrink(pi interface{}) []interface{} {
 		q.Workers = 1
 		out = append(out, q)
 	}
+	if p.ViaECAL {
+		q := clone()
+		q.ViaECAL = false
+		out = append(out, q)
+	}
 	return out
+}
+
+func (v c01Val) ecalText() string {
+	switch v.T {
+	case "num":
+		return fmt.Sprint(v.N)
+	case "str", "regex":
+		return fmt.Sprintf("%q", v.S)
+	case "list":
+		return fmt.Sprintf("[%v]", v.N)
+	case "map":
+		return fmt.Sprintf("{%q: 1}", v.S)
+	}
+	return "null"
+}
+
+func c01Sinks(p *c01Plan) string {
+	var b strings.Builder
+	q := func(xs []string) string {
+		var o []string
+		for _, x := range xs {
+			o = append(o, fmt.Sprintf("%q", x))
+		}
+		return "[" + strings.Join(o, ", ") + "]"
+	}
+	for _, ru := range p.Rules {
+		fmt.Fprintf(&b, "sink %s\n    kindmatch %s,\n", ru.Name, q(ru.Kinds))
+		if len(ru.Scope) > 0 {
+			fmt.Fprintf(&b, "    scopematch %s,\n", q(ru.Scope))
+		}
+		if ru.HasState {
+			keys := make([]string, 0, len(ru.State))
+			for k := range ru.State {
+				keys = append(keys, k)
+			}
+			sort.Strings(keys)
+			var kv []string
+			for _, k := range keys {
+				kv = append(kv, fmt.Sprintf("%q: %s", k, ru.State[k].ecalText()))
+			}
+			fmt.Fprintf(&b, "    statematch {%s},\n", strings.Join(kv, ", "))
+		}
+		if len(ru.Suppress) > 0 {
+			fmt.Fprintf(&b, "    suppresses %s,\n", q(ru.Suppress))
+		}
+		fmt.Fprintf(&b, "    priority %d\n{\n    fired(%q, event.state.evid)\n}\n", ru.Prio, ru.Name)
+	}
+	return b.String()
 }
 
 // ---------------------------------------------------------------------------
@@ -470,7 +535,14 @@ type c01Inst struct {
 
 func c01Run(p *c01Plan) {
 	engine.UnitTestResetIDs()
-	proc := engine.NewProcessor(p.Workers)
+	var proc engine.Processor
+	var erp *interpreter.ECALRuntimeProvider
+	if p.ViaECAL {
+		erp, _ = newProvider(p.Workers, nil)
+		proc = erp.Processor
+	} else {
+		proc = engine.NewProcessor(p.Workers)
+	}
 	var insts []*c01Inst
 	newInst := func(ev *c01Event) *c01Inst {
 		in := &c01Inst{id: len(insts), ev: ev, fired: map[string]int{}}
@@ -478,7 +550,7 @@ func c01Run(p *c01Plan) {
 		return in
 	}
 	mkEvent := func(in *c01Inst) *engine.Event {
-		st := map[interface{}]interface{}{"__id": in.id}
+		st := map[interface{}]interface{}{"__id": in.id, "evid": float64(in.id)}
 		for k, v := range in.ev.State {
 			st[k] = v.goValue()
 		}
@@ -505,7 +577,28 @@ func c01Run(p *c01Plan) {
 			return nil
 		}
 	}
+	if p.ViaECAL {
+		vs := newGlobalScope()
+		vs.SetValue("fired", &goFunc{name: "fired", fis: func(is map[string]interface{}, tid uint64, args []interface{}) (interface{}, error) {
+			id, _ := num(args[1])
+			if int(id) < 0 || int(id) >= len(insts) {
+				simrt.Fail("oracle:foreign-event", "foreign-event", "sink %v fired for an unknown event id %v", args[0], args[1])
+			}
+			m, _ := is["monitor"].(engine.Monitor)
+			if m == nil {
+				simrt.Fail("oracle:harness", "no-monitor", "sink invocation without monitor in its instance state")
+			}
+			return nil, action(fmt.Sprint(args[0]))(proc, m, mkEvent(insts[int(id)]), tid)
+		}})
+		src := c01Sinks(p)
+		if _, err := loadProgram(erp, "c01", src, vs); err != nil {
+			simrt.Fail("oracle:add-rule", "add-rule", "sink declarations do not load: %v\n%s", err, src)
+		}
+	}
 	for i := range p.Rules {
+		if p.ViaECAL {
+			break
+		}
 		ru := &p.Rules[i]
 		r := &engine.Rule{Name: ru.Name, KindMatch: ru.Kinds, ScopeMatch: ru.Scope, Priority: ru.Prio, SuppressionList: ru.Suppress, Action: action(ru.Name)}
 		if ru.HasState {
